@@ -45,7 +45,7 @@ Definition txrow_eqb (a b : txrow) : bool :=
   && N.eqb (x_minobs a) (x_minobs b).
 Definition note_eqb (a b : note) : bool :=
   key_eqb (n_key a) (n_key b) && N.eqb (n_acct a) (n_acct b) && N.eqb (n_value a) (n_value b)
-  && N.eqb (n_recv a) (n_recv b) && set_eqb N.eqb (n_spent a) (n_spent b).
+  && N.eqb (n_recv a) (n_recv b) && N.eqb (n_idx a) (n_idx b) && set_eqb N.eqb (n_spent a) (n_spent b).
 Definition nfe_eqb (a b : key * (N * N)) : bool := key_eqb (fst a) (fst b) && pairN_eqb (snd a) (snd b).
 
 Definition bal_ok (s : wstate) (tip : N) (e : N * N * N * N) : bool :=
@@ -122,7 +122,7 @@ Definition mined_notes (d : dump) : list note :=
 Definition out_note_match (d : dump) (e : out * N * N) (n : note) : bool :=
   let '(o, txid, h) := e in
   key_eqb (n_key n) (o_key o) && optN_eqb (o_owner o) (Some (n_acct n)) && N.eqb (n_value n) (o_value o)
-  && N.eqb (n_recv n) txid && optN_eqb (d_mined d txid) (Some h).
+  && N.eqb (n_recv n) txid && N.eqb (n_idx n) (o_idx o) && optN_eqb (d_mined d txid) (Some h).
 
 (** notes of mined transactions = outputs owned in scanned blocks *)
 Definition chk_notes (S : list block) (d : dump) : bool :=
@@ -217,7 +217,7 @@ Definition last_dump (l : list stepc) : option dump :=
   end.
 
 Definition strip_unmined (d : dump) (n : note) : note :=
-  mkNote (n_key n) (n_acct n) (n_value n) (n_recv n) (filter (fun t => is_some (d_mined d t)) (n_spent n)).
+  mkNote (n_key n) (n_acct n) (n_value n) (n_recv n) (n_idx n) (filter (fun t => is_some (d_mined d t)) (n_spent n)).
 
 Definition bal4_eqb (a b : N * N * N * N) : bool :=
   let '(a1, a2, a3, a4) := a in let '(b1, b2, b3, b4) := b in
